@@ -152,7 +152,7 @@ STATE_SNIPS = [
     "{% import 'lib3.html' as M %}{{ M.h(text) }}{{ M.ft(2) }}{{ M.ff(2) }}", "{% import 'lib3.html' as M %}{{ M.ft(zero) }}",
     "{% import 'lib3.html' as M %}{{ M.ff(zero) }}", "{% import 'lib3.html' as M %}{{ M.h(words) }}",
     # a cached module with module-level state (recorded finding C29-F3)
-    "{% import 'cnt.html' as C %}{{ C.nxt() }}",
+    "{% import 'cnt.html' as C %}{{ C.nxt() }}", "{% import 'cyc.html' as Y %}{{ Y.nx() }}",
     # a cached module holding a lazy filter result / an iterator (recorded finding C29-F4)
     "{% from 'lazy.html' import evens %}{{ evens|list }}", "{% import 'lazy.html' as Z %}{{ Z.rows|list }}{{ Z.fixed }}",
 ]
@@ -164,6 +164,7 @@ AUX = {
                  "{% macro ff(x) %}{% autoescape false %}{{ 4 // x }}{{ '<f>' }}{% endautoescape %}{% endmacro %}"
                  "{% macro h(x) %}{{ [x, '<i>'|safe]|join }}{% endmacro %}",
     "lazy.html": "{% set evens = range(6)|select('even') %}{% set rows = [1, 2]|map('string') %}{% set fixed = range(3)|list %}",
+    "cyc.html": "{% set c = cycler('a', 'b', 'c') %}{% macro nx() %}{{ c.next() }}{% endmacro %}",
     "cnt.html": "{% set ns = namespace(n=0) %}{% macro nxt() %}{% set ns.n = ns.n + 1 %}{{ ns.n }}{% endmacro %}",
 }
 
@@ -174,7 +175,7 @@ SIG_MODULE_EVALCTX = "cached-module macro autoescape block (shared module eval c
 
 def special_signature(src):
     """templates that exercise a recorded finding get that finding's signature"""
-    if "cnt.html" in src:
+    if "cnt.html" in src or "cyc.html" in src:
         return SIG_MODULE_STATE
     if "lazy.html" in src:
         return SIG_MODULE_LAZY
